@@ -54,6 +54,11 @@ func cfgA(id, rule string, panicV bool) propCfg {
 		PanicIsViolation: panicV, Real: realA, Stubbed: stubA, Assume: assumeA}
 }
 
+func cfgStore(c propCfg) propCfg {
+	c.Real = append(append([]string{}, c.Real...), "store.JsonDataStore on a per-run directory in /dev/shm (or the recording in-memory store)", "taskctl.FileOutputStore (C12)", "persist loop of NewPipelineRunner")
+	return c
+}
+
 var props = map[string]propCfg{
 	"C01": cfgA("C01", "seeded scenarios (1-3 pipelines, concurrency 1-3, queues, delays, reloads, cancels, failing tasks, unbuildable jobs) x seeded schedules; non-trivial = a queued job was started by a dequeue; distinct = distinct trace hash", true),
 	"C02": cfgA("C02", "seeded task graphs (chains, diamonds, random DAGs up to 6 tasks, self loops and back edges, duplicate and renamed dependencies) x seeded completion orders and outcomes; non-trivial = a job with >= 2 tasks ran; distinct = distinct trace hash", true),
@@ -63,6 +68,9 @@ var props = map[string]propCfg{
 	"C06": cfgA("C06", "seeded histories with deep append queues, cancels, failures and unbuildable jobs; non-trivial = a queued job was started by a dequeue; distinct = distinct trace hash", true),
 	"C07": cfgA("C07", "seeded histories on pipelines with start_delay (50ms-10s), replace bursts, clock jumps and stalls; non-trivial = a delayed job started or a waiting job was replaced; distinct = distinct trace hash", false),
 	"C08": cfgA("C08", "seeded graphs x forced and tape-drawn task failures x allow_failure x both fail-fast settings, verdict read through ReadJob and /job/detail; non-trivial = a task failed in a started job; distinct = distinct trace hash", true),
+	"C10": cfgStore(cfgA("C10", "seeded histories with the persist loop live on the real JsonDataStore (70%) or an in-memory store, job variables of every JSON type, failing tasks, store write errors; crash-and-restart as a scheduling choice at every step, including inside a save; non-trivial = a restart loaded a snapshot containing jobs; distinct = distinct trace hash", false)),
+	"C11": cfgStore(cfgA("C11", "seeded histories with one or two Shutdown calls (graceful / forced with deadlines 0ms-5s, with and without cancelling the runner context first) begun in any state, concurrent schedule/cancel/save clients, settle actions that wait three persist pauses; non-trivial = a Shutdown returned or persist liveness was evaluated; distinct = distinct trace hash", false)),
+	"C12": cfgStore(cfgA("C12", "seeded retention_count x retention_period x several pipelines, clock jumps between jobs, reloads that drop pipelines, explicit saves interleaved with activity, restarts, log removal errors; the real FileOutputStore holds the logs; non-trivial = a save removed jobs; distinct = distinct trace hash", false)),
 	"C15": cfgA("C15", "seeded histories with settle-and-probe actions (list, then schedule at once), HTTP and direct reads; non-trivial = a schedulable probe or HTTP listing was evaluated; distinct = distinct trace hash", false),
 	"C16": cfgA("C16", "seeded old/new definition pairs produced by mutation (tasks added/removed/rewired, scripts, env, delay, limits, strategy, pipelines dropped/added), reloads at seeded points of job lives; non-trivial = a reload happened while a job was waiting or running; distinct = distinct trace hash", true),
 }
